@@ -15,6 +15,7 @@ package main
 //   life close-waiting <k>                         Close while a receiver waits on the idle channel, then the receiver's context is cancelled
 //   life conn-close <nchan> <pending> [<gap>]      Conn.Close with <pending> unread packages per channel; logical channel <gap> closed before
 //   life close-pending <chan> <pending> <cap>      Close with <pending> packages of an abandoned response, queue capacity <cap>
+//   life refused-hook <0|1>                        a refused registration of a message / environment hook, then a message, then Conn.Close
 //   life queued-then-error <n>                     n packages queued, then the peer goes away: packages first, then the error
 //   life close-refused <once>                      Close of a logical channel whose teardown packet the transport refuses
 //   life unknown-token <tok> <len>                 a message starting with a token without a package type, then a DONE, then Conn.Close
@@ -490,6 +491,35 @@ func lifeImpl(line string) string {
 			return out + " reader=ended"
 		}
 		return out + " reader=alive"
+	case "refused-hook":
+		// a hook registration is refused (a nil hook among the arguments), then a server message / an environment
+		// change arrives and the connection is closed: the refused call leaves nothing behind that could hold
+		// up the delivery or Close
+		e, done := newLifeEnvOwnReader(100)
+		ch := e.conn.VerifNewChannel(0)
+		var rerr error
+		if arg(2) == 0 {
+			rerr = ch.RegisterEEDHooks(func(tds.EEDPackage) {}, nil)
+		} else {
+			rerr = ch.RegisterEnvChangeHooks(func(tds.EnvChangeType, string, string) {}, nil)
+		}
+		if rerr == nil {
+			return "nil-hook-accepted"
+		}
+		body := append(append(wEED(2601, 0, "duplicate key\n"), wEnvChange([3]string{"\x01", "db1", "master"})...), wDone(0xFD, 0, 0, 0)...)
+		e.mc.feed(packetize(body, nil, 4, 0))
+		out := watchdog(wd, func() string {
+			ctx, cancel := context.WithTimeout(context.Background(), time.Second)
+			defer cancel()
+			pkg, err := ch.NextPackage(ctx, true)
+			return "next=" + classify(pkg, err)
+		})
+		e.mc.feed(packetize(wDone(0xFD, 0, 0, 0), nil, 4, 0)) // the answer to the logout
+		out += " " + watchdog(wd, func() string { e.conn.Close(); return "connclose=ok" })
+		if readerEnded(done) {
+			return out + " reader=ended"
+		}
+		return out + " reader=alive"
 	case "queued-then-error":
 		// n packages have arrived and the peer has gone (the connection's error queue holds the read error):
 		// the consumer gets what was received first, each package in its turn, and only then the error
@@ -569,7 +599,7 @@ func lifeOracle(line, out string) string {
 		switch f[1] {
 		case "abandon-close":
 			return "after a channel is closed every call on it reports the closed condition (it does not block)"
-		case "close-pending", "close-errors", "close-connerrs", "closed-ops", "double-close", "conn-close", "reader-exit", "reader-exit-unknown", "close-waiting", "unknown-token":
+		case "close-pending", "close-errors", "close-connerrs", "closed-ops", "double-close", "conn-close", "reader-exit", "reader-exit-unknown", "close-waiting", "unknown-token", "refused-hook":
 			return "Close returns in bounded time whatever the state of the receive queue and the peer"
 		}
 		return "a call with a cancelled context returns promptly"
@@ -666,7 +696,10 @@ func lifeOracle(line, out string) string {
 		if kv["reader"] != "ended" {
 			return "closing the connection ends the reader"
 		}
-	case "reader-exit", "reader-exit-unknown", "unknown-token":
+	case "reader-exit", "reader-exit-unknown", "unknown-token", "refused-hook":
+		if f[1] == "refused-hook" && kv["next"] != "pkg" {
+			return "a refused hook registration does not hold up the delivery of what arrives afterwards"
+		}
 		if f[1] == "unknown-token" && kv["next"] != "pkg" {
 			return "a message with a token the library does not know does not stop the delivery of what follows"
 		}
@@ -747,6 +780,9 @@ func init() {
 			}
 			for _, once := range []int{0, 1} {
 				emit(Case{Line: fmt.Sprintf("life close-refused %d", once), Kind: "close-teardown-refused"})
+			}
+			for _, k := range []int{0, 1} {
+				emit(Case{Line: fmt.Sprintf("life refused-hook %d", k), Kind: "refused-hook-then-close"})
 			}
 			for _, n := range []int{1, 2, 3, 5, 8, 13} {
 				for r := 0; r < 3; r++ {
